@@ -88,7 +88,7 @@ fn diff_layer(g: &CLayer, w: &CLayer, header: bool) -> Option<(String, serde_jso
 
 fn roundtrip(cx: &CaseCtx, rep: &mut Report, rng: &mut Rng) {
 	cx.progress("round trip");
-	for _ in 0..40 {
+	for _ in 0..(if cx.tier.is_tiny() { 3 } else { 40 }) {
 		let enc = imvt::EncOpts { dup_keys: rng.chance(0.5), dup_vals: rng.chance(0.5), unused_entries: rng.chance(0.4), foreign_field_order: rng.chance(0.5) };
 		let go = imvt::GenOpts { extreme_values: rng.chance(0.6), ..Default::default() };
 		let layers = imvt::gen_layers(rng, &go);
